@@ -96,7 +96,7 @@ use libc::{self, c_int, timeval};
 use nix::errno::Errno;
 use nix::fcntl;
 use nix::sys::select::{self, FdSet};
-use nix::sys::signal::{self, SigHandler, Signal};
+use nix::sys::signal::{self, SaFlags, SigAction, SigHandler, SigSet, Signal};
 use nix::sys::time::TimeVal;
 use nix::sys::wait::{self, WaitStatus};
 use nix::unistd::{self, ForkResult, Pid};
@@ -1088,7 +1088,18 @@ fn try_read(fd: RawFd, buf: &mut [u8]) -> nix::Result<Option<usize>> {
     }
     // The socket is readable - but some other process might get there first.
     // We have to set an alarm() in case our read() gets stuck.
-    let oldh = unsafe { signal::signal(Signal::SIGALRM, SigHandler::Handler(timeout_handler)) }?;
+    // (sigaction without SA_RESTART, not signal(): a handler installed by
+    // glibc's signal() restarts the read() instead of interrupting it.)
+    let oldh = unsafe {
+        signal::sigaction(
+            Signal::SIGALRM,
+            &SigAction::new(
+                SigHandler::Handler(timeout_handler),
+                SaFlags::empty(),
+                SigSet::empty(),
+            ),
+        )
+    }?;
     const INTERVAL_VALUE: IntervalTimerValue = IntervalTimerValue {
         interval: Duration::from_millis(10),
         value: Duration::from_millis(10),
@@ -1100,7 +1111,7 @@ fn try_read(fd: RawFd, buf: &mut [u8]) -> nix::Result<Option<usize>> {
         Err(e) => Err(e),
     };
     helpers::set_interval_timer(IntervalTimer::Real, &IntervalTimerValue::default())?;
-    unsafe { signal::signal(Signal::SIGALRM, oldh) }?;
+    unsafe { signal::sigaction(Signal::SIGALRM, &oldh) }?;
     result
 }
 
